@@ -58,7 +58,7 @@ func lookupType(p *Prog, pkgPath, name string) types.Type {
 
 type mirrorPair struct {
 	goomPkg, goomType, goomField string // module-relative package
-	stdPkg, stdType, stdField     string
+	stdPkg, stdType, stdField    string
 }
 
 var mirrors = []mirrorPair{
